@@ -112,7 +112,13 @@ type Case struct {
 	// Interleaved: the failure was seen when the same code was decoded in every space in turn; the replay
 	// decodes it in the other spaces first
 	Interleaved bool `json:"interleaved,omitempty"`
+	// Spread > 0: the three channels are not a third of the range apart but next to each other - pattern number
+	// Spread-1 of nearPatterns (almost-neutral colours: greys with one channel a code or two off)
+	Spread int `json:"spread,omitempty"`
 }
+
+// nearPatterns: channel offsets (G, B relative to R) of almost-neutral colours
+var nearPatterns = [][2]int{{0, 0}, {1, 0}, {0, 1}, {1, 1}, {-1, 0}, {0, -1}, {1, -1}, {2, 1}, {-1, -1}, {0, 2}, {3, 0}}
 
 func space(name string) *sp.API {
 	for i := range sp.Spaces {
@@ -128,6 +134,10 @@ func space(name string) *sp.API {
 // per-component entry points only the first is meaningful, the others repeat).
 func codes(c Case) [3]int {
 	n := 1 << c.Bits
+	if c.Spread > 0 {
+		p := nearPatterns[(c.Spread-1)%len(nearPatterns)]
+		return [3]int{c.Code, ((c.Code+p[0])%n + n) % n, ((c.Code+p[1])%n + n) % n}
+	}
 	return [3]int{c.Code, (c.Code + n/3) % n, (c.Code + 2*(n/3)) % n}
 }
 
@@ -314,7 +324,7 @@ func TestC01(t *testing.T) {
 		fmt.Println("REPLAY case passed:", c)
 		return
 	}
-	ev.Rule("exhaustive: every (space, entry point, code) for all 256 8-bit and 65,536 16-bit codes; colour constructors carry three different codes per call (v, v+N/3, v+2N/3); every case is distinct and counted as non-trivial; relational checks (strict monotonicity, From8Bit(v)==From16Bit(257v)) run over the complete tables")
+	ev.Rule("exhaustive: every (space, entry point, code) for all 256 8-bit and 65,536 16-bit codes; colour constructors carry three different codes per call (v, v+N/3, v+2N/3); every case is distinct and counted as non-trivial; relational checks (strict monotonicity, From8Bit(v)==From16Bit(257v)) run over the complete tables every code once more with the other two channels equal to it or a code or two away (almost-neutral colours) through every whole-colour entry point. ")
 	ev.Set("exhaustive", true)
 	ev.Set("tolerance_abs", tol)
 	ev.Assume("the published EOTF constants transcribed in internal/ref (IEC 61966-2-1, Adobe RGB (1998) gamma 563/256, ROMM RGB Et=1/512) are correct")
@@ -367,6 +377,31 @@ func TestC01(t *testing.T) {
 		}
 		relational(t, a)
 	}
+	// almost-neutral colours: every code with the other two channels equal to it or a code or two away (the pattern
+	// changes from code to code), through every entry point that takes a whole colour
+	for i := range sp.Spaces {
+		a := &sp.Spaces[i]
+		for _, bits := range []int{8, 16} {
+			es := entries8
+			if bits == 16 {
+				es = entries16
+			}
+			for _, e := range es {
+				if e == "From8Bit" || e == "From16Bit" || strings.Contains(e, "/Gray") {
+					continue
+				}
+				for code := 0; code < 1<<bits; code++ {
+					c := Case{Space: a.Name, Entry: e, Bits: bits, Code: code, Spread: 1 + (code+i)%len(nearPatterns)}
+					ev.Eval(1)
+					if kind, what := check(c); kind != "" {
+						ev.Violation("decode", c.Space+"/"+c.Entry+"/near-neutral-"+kind, "almost-neutral colour: "+what, c)
+						break
+					}
+				}
+			}
+		}
+	}
+	ev.Class("almost-neutral-colours", int64(len(sp.Spaces)*(len(entries8)+len(entries16)-6)))
 	// second pass: all tables of all spaces have now been built and used - decoding must not depend on which
 	// other space was used earlier in the process
 	for i := range sp.Spaces {
